@@ -37,7 +37,7 @@ DECIDING = ["lookups_compared", "ops_applied", "dispatch_checked", "warnings_com
 EXHAUSTIVE = {"quick": True, "thorough": True}
 
 KINDS = ["megacomplex", "data_io", "project_io"]
-SHORT = ["fa", "fb"]
+SHORT = ["fa", "Fb"]  # one short name with an upper-case letter: registry keys are case sensitive, also for inferred formats
 DOTTED = "f.c"
 
 
@@ -89,14 +89,14 @@ def alphabet(kind):
             ops.append(["reg", list(SHORT), c])
     ops.append(["reg", [DOTTED], 0])
     if inst:
-        ops.append(["reg", ["fa", DOTTED, "fb"], 1])
+        ops.append(["reg", ["fa", DOTTED, "Fb"], 1])
     for n in SHORT:
         for c in range(4):
             for f in SHORT if inst else [None]:
                 ops.append(["set", n, c, f])
     ops.append(["set", DOTTED, 0, "fa"])
     ops.append(["setraw", "fa", "nodots"])
-    ops.append(["setraw", "fb", "vf.props.c19.Nope"])
+    ops.append(["setraw", "Fb", "vf.props.c19.Nope"])
     return ops
 
 
